@@ -76,7 +76,10 @@ impl Distribution1D for Binomial {
 pub fn binomial_inversion(n: u64, p: f64) -> u64 {
     let s = p / (1. - p);
     let a = ((n + 1) as f64) * s;
-    let r0 = (1. - p).powf(n as f64);
+    // (1 - p)^n through ln_1p: `1. - p` is rounded to 53 bits BEFORE it is raised to the power n, which
+    // multiplies that rounding error by n (n = 1e15, p = 3e-14 gave a mass at 0 that was 2% off, and
+    // for p < 2^-54 the mass at 0 was exactly 1 however large n * p is).
+    let r0 = (n as f64 * (-p).ln_1p()).exp();
     // Rounding can leave the summed mass below the uniform draw; the loop would then run past n
     // forever. As in Kachitvichyanukul and Schmeiser's BINV, give up ten standard deviations above
     // the mean (or at n) and start again with a new draw.
